@@ -29,7 +29,8 @@ for id in $ids; do
     if [ $rc -eq 0 ] && [ "$exp" = "missed" ]; then echo "known-gap $id ($props): not detected, as recorded in meta.json";
     elif [ $rc -eq 0 ]; then echo "MISSED  $id ($props)"; missed=$((missed+1)); else echo "caught  $id ($props): $names" | cut -c1-230; fi
   else
-    if [ $rc -ne 0 ]; then echo "FALSE-ALARM $id ($props): $names" | cut -c1-230; alarms=$((alarms+1)); else echo "quiet   $id ($props)"; fi
+    if [ $rc -ne 0 ] && [ "$exp" = "alarm" ]; then echo "known-false-alarm $id ($props): $names" | cut -c1-230;
+    elif [ $rc -ne 0 ]; then echo "FALSE-ALARM $id ($props): $names" | cut -c1-230; alarms=$((alarms+1)); else echo "quiet   $id ($props)"; fi
   fi
 done
 echo "selftest: missed=$missed false-alarms=$alarms"
